@@ -4,6 +4,7 @@ import LyModel.XmlTree.OpaqTag
 import LyModel.XmlTree.OpaqFaithful
 import LyModel.XmlTree.DataFaithful
 import LyModel.XmlTree.ScopeFaithful
+import LyModel.XmlTree.SpecScopeLemmas
 import LyModel.Generated.JsonTyping
 import LyModel.JsonTree.Refine
 import LyModel.JsonTree.Faithful
@@ -420,6 +421,18 @@ theorem xml_document_faithful_meta_scoped (fx : Fixes) (hn : fx.numbered = true)
     ∃ es, XmlDoc.parseDocS (printDData fx forest) = some es ∧ XmlDoc.eraseL es = dviewList forest ∧ DScopeOkL forest es :=
   parseDocS_printDData_scoped fx hn hr forest h
 
+/-- **The scoped reader is the plain reader plus one field** — for EVERY byte string, well-formed or not, no printer involved: the
+    plain reader's verdict and result are the scoped reader's with the in-scope namespaces erased.  So (d′) implies (d), whatever
+    `parseDocS` accepts `parseDoc` accepts with the same elements, and the cross-check of `parseDoc` against expat on every run
+    covers `parseDocS` as well. -/
+theorem scoped_reader_erases_to_plain (d : Bytes) : XmlDoc.parseDoc d = (XmlDoc.parseDocS d).map XmlDoc.eraseL :=
+  XmlDoc.parseDoc_eq_erase d
+
+/-- non-vacuity: an accepted document with a re-bound prefix, and a rejected one (undeclared prefix): both readers agree -/
+example : (XmlDoc.parseDocS (bytesOfString "<a xmlns=\"o\" xmlns:p=\"1\"><b xmlns:p=\"2\" p:k=\"p:v\"/></a>")).isSome = true ∧
+    (XmlDoc.parseDocS (bytesOfString "<a q:k=\"1\"/>")).isSome = false ∧
+    (XmlDoc.parseDoc (bytesOfString "<a q:k=\"1\"/>")).isSome = false := by decide +kernel
+
 open XmlTree in
 /-- **(e) Prefixes inside values keep their meaning.**  In the start tag of any data node satisfying `tagOkB` (the per-tag part
     of `dataOk`), under any reader environment `env` that resolves like the printer's stack `st`: in the environment the
@@ -623,5 +636,41 @@ example : JsonTree.printData exJ =
      34, 58, 91, 55, 44, 45, 57, 93, 44, 34, 110, 58, 100, 34, 58, 123, 34, 101, 34, 58, 91, 110, 117, 108, 108, 93, 125, 44,
      34, 108, 34, 58, 91, 123, 34, 107, 34, 58, 34, 49, 56, 34, 44, 34, 98, 34, 58, 116, 114, 117, 101, 125, 44, 123, 34, 107,
      34, 58, 34, 50, 34, 125, 93, 125, 44, 34, 110, 58, 121, 34, 58, 49, 125] := by decide +kernel
+
+/-- **JSON metadata, part one (RFC 7952 sec. 5.2.1 for containers and list entries).**  `json_tree_refines_spec` and
+    `json_document_faithful` now hold for trees in which containers and list entries carry annotations — the hypothesis
+    `JsonTree.OkL` only requires leaves and leaf-list instances to be without (`_partial`: the `@name` member of a leaf and the
+    `@name` array of a leaf-list are modelled and compared with libyang and with the state-free expectation `jsonViewM` on every
+    run, but not yet under the theorem).  This restates the pair for such a tree: the model of `json_print_data` /
+    `json_print_inner` / `json_print_metadata` writes, and the independent RFC 8259 reader recovers, every container and list entry
+    as an object whose FIRST member is `"@"` with the metadata object — one member `module:annotation` per annotation, values typed
+    as RFC 7951 sec. 6 says — followed by the children; annotations stay attached to the instance (list entry) they belong to. -/
+theorem json_document_faithful_meta_partial (forest : List JsonTree.JNode) (hok : JsonTree.OkL [] forest)
+    (hadj : JsonTree.AdjKind forest) (hval : JsonTree.OkJL forest) :
+    JsonTree.printData forest = JsonTree.specData forest ∧
+    JsonDoc.parseDoc (JsonTree.printData forest) = some (JsonTree.jsonView forest) :=
+  ⟨json_tree_refines_spec forest hok hadj, json_document_faithful forest hok hadj hval⟩
+
+/-- non-vacuity: a container with two annotations (a string that needs escaping, a number) holding a leaf and a list with two
+    entries, the second of which carries an annotation, the first none:
+    `{"m:c":{"@":{"m:h":"a\"","n:k":7},"x":1,"l":[{"k":"a"},{"@":{"m:h":"e"},"k":"b"}]}}` -/
+def exJM : List JsonTree.JNode :=
+  [ .mk .cont 1 [109] [99] true [⟨[109], [104], .str, [97, 34]⟩, ⟨[110], [107], .lit, [55]⟩] .str []
+      [ .mk .leaf 2 [109] [120] true [] .lit [49] [],
+        .mk .list 3 [109] [108] true [] .str [] [ .mk .leaf 4 [109] [107] true [] .str [97] [] ],
+        .mk .list 3 [109] [108] true [⟨[109], [104], .str, [101]⟩] .str [] [ .mk .leaf 4 [109] [107] true [] .str [98] [] ] ] ]
+
+theorem exJM_ok : JsonTree.OkL [] exJM ∧ JsonTree.AdjKind exJM ∧ JsonTree.OkJL exJM := by
+  refine ⟨by simp [exJM, JsonTree.OkL, JsonTree.Ok, JsonTree.AdjKind, JsonTree.JNode.sid, JsonTree.JNode.kind],
+    by simp [exJM, JsonTree.AdjKind], ?_⟩
+  simp [exJM, JsonTree.OkJL, JsonTree.OkJ, JsonTree.ValueOk, JsonDoc.KeyOk, JsonDoc.LitOk]
+  decide
+
+example : JsonTree.printData exJM = bytesOfString
+    "{\"m:c\":{\"@\":{\"m:h\":\"a\\\"\",\"n:k\":7},\"x\":1,\"l\":[{\"k\":\"a\"},{\"@\":{\"m:h\":\"e\"},\"k\":\"b\"}]}}" := by
+  decide +kernel
+
+example : JsonDoc.parseDoc (JsonTree.printData exJM) = some (JsonTree.jsonView exJM) :=
+  (json_document_faithful_meta_partial exJM exJM_ok.1 exJM_ok.2.1 exJM_ok.2.2).2
 
 end LyModel.Props.C12
